@@ -132,6 +132,8 @@ def main():
                 core.REPO = "/repo"
                 ctx = core.Ctx(pid)
                 ctx.regen(mod)
+                # rebuild the cone from /repo's model so that no .vo compiled against the mutant's Gen.v stays behind
+                ctx.make(["theories/%s/Props.vo" % pid])
                 shutil.rmtree(ctx.casedir, ignore_errors=True)
         except Exception as ex:  # noqa
             print("could not restore generated model:", ex)
